@@ -202,6 +202,30 @@ theorem file_source_spec_partial (mode : LineMode) (fs : FS) (stdin file : Str) 
       exact file_hosts_spec_partial mode fs _ hfs f.content (hfs f (lookup_some_mem hlk).1 hrd)
     · simp [hrd]
 
+/-- `F being looked up in the directory of the file named on the command line`: an include name that
+is not absolute and does not start with `./` or `../` can only resolve to that directory's entry —
+never to a file relative to the current directory -/
+theorem bare_include_in_top_directory (fs : FS) (d f p : Str) (h : isExplicit f = false)
+    (hr : resolve fs [d] f = some p) : p = d ++ '/' :: f ∧ canRead fs p = true := by
+  unfold resolve at hr
+  simp only [h, Bool.false_eq_true, if_false, pathLookup] at hr
+  split at hr
+  · simp at hr
+  · split at hr
+    · rename_i hc
+      simp only [Option.some.injEq] at hr
+      subst hr
+      exact ⟨rfl, hc⟩
+    · simp at hr
+
+/-- names that merely START with dots (hidden files, hidden sub-directories) are such bare names;
+only `/…`, `./…` and `../…` are used as given (the exact test of `wcoll_ctx_resolve_path`) -/
+theorem dot_names_are_bare :
+    isExplicit ".extra".toList = false ∧ isExplicit "..racks".toList = false ∧
+    isExplicit ".d/list".toList = false ∧ isExplicit "..".toList = false ∧ isExplicit ".".toList = false ∧
+    isExplicit "./x".toList = true ∧ isExplicit "../x".toList = true ∧ isExplicit "/x".toList = true := by
+  decide
+
 /-- quirk outside the property's domain, mirrored by the model: the directory of the command-line
 file is split at ':' (it is handed to `list_split (":", ...)` as if it were a search path) -/
 theorem colon_dir_witness :
